@@ -16,6 +16,7 @@ DECIDED = [
     "VIEW: every component view a state function stores (scheme, authority, userinfo, user, password, host_name, path, query_string, path_and_query) is {NULL,0} or lies inside the text being parsed, for all inputs (NUM); same for the key/value views of the query iterator",
     "STATE: the driver loop runs while state < FINISHED, every state function assigns a later state on every feasible path and raises when it sets ERROR (shared with C04)",
     "HOST-CURSOR: after the user-info has been split off, host / port parsing reads only bytes after the '@'",
+    "DELIM: the authority ends at the first of the delimiters the parser searches for ('/' and '?'): the end handed to the split lies at or before every delimiter found (NUM) - a '/' inside the query does not move the split",
     "BUILDER: the builder's size estimate covers every piece appended before the parameter list (NUM: each such append has room); the per-parameter estimate term covers the per-parameter appends (accounting agreement of the two loops over the list); the built text is re-parsed by the same parser",
     "ENCODER: the worst-case reservation makes the raw-pointer appenders safe (C04 REQUIRES/SUMMARY on uri.c); an input byte is stored unescaped only under isalnum or an unreserved-character case label ('/' only in the path encoder); every other byte stored is '%' or an upper-case hex digit (NUM range of s_to_uppercase_hex for arguments < 16); the decoder's hex table maps exactly those digits back",
     "QUERY: the list form is a loop over the iterator pushing each pair it yields; the iterator skips empty pairs and splits at the first '='; inductively over calls (NUM) every yielded pair spans exactly the substring that was split and the substring handed back to the splitter on the next call is exactly that pair",
@@ -719,6 +720,57 @@ def _stored_field(f, el):
     return l
 
 
+def authority_end(R, P):
+    """DELIM/authority-ends-at-first-delimiter: s_parse_authority looks for the '/' and the '?' that can end the authority
+    (memchr over the rest of the text) and cuts the authority off with aws_byte_cursor_advance(str, end - start).  NUM, every
+    state at that cut: for each delimiter search whose result may be non-NULL, end <= that result.  (RFC 3986 3.2: the
+    authority is terminated by the next '/', '?' or '#'; "http://h?a=/b" has an empty path and the query "a=/b".)"""
+    f = P.fn("s_parse_authority")
+    if not R.require(f is not None, "s_parse_authority not found"):
+        return
+    mcs = [e for e in f.calls("memchr") if f.is_const(RU.uncast(f, RU.arg(f, e.node, 1))) in (47, 63, 35) and argstr(f, e.node, 0, addr=False).endswith("->ptr")]
+    cut = None
+    for b_ in f.blocks.values():
+        for el in b_.elems:
+            if el["k"] == "bin" and el["op"] == "=":
+                l_, r_ = RU.uncast(f, el["a"][0]), RU.uncast(f, el["a"][1])
+                if l_ is not None and l_["k"] == "member" and l_["f"] == "authority" and r_ is not None and r_["k"] == "call" and r_.get("callee") == "aws_byte_cursor_advance":
+                    cut = r_
+    if not R.require(len(mcs) >= 2 and cut is not None, "s_parse_authority: delimiter searches / the authority cut not found (%d searches)" % len(mcs)):
+        return
+    holders = {}
+    for e in f.all_events():
+        if e.kind == "decl":
+            for v in e.node["vars"]:
+                i_ = RU.uncast(f, v["init"]) if v.get("init") is not None else None
+                for m in mcs:
+                    if i_ is m.node:
+                        holders[v["n"]] = chr(f.is_const(RU.uncast(f, RU.arg(f, m.node, 1))))
+    num = Num(f, P, C04.ParserHooks(), max_paths=20000)
+    try:
+        sts = num.states_at({cut["id"]})
+    except Limit as ex:
+        R.broken(str(ex))
+        return
+    ok, det, n = True, "", 0
+    for st in sts.get(cut["id"], []):
+        n += 1
+        start = num.val(RU.arg(f, mcs[0].node, 0), st)
+        ln = num.val(RU.arg(f, cut, 1), st)
+        if start is None or ln is None:
+            ok, det = False, "the length of the cut is not numeric"
+            continue
+        end = start + ln
+        for name, ch in holders.items():
+            mv = st.env.get("v:" + name)
+            if mv is None or (entails(st, mv) and entails(st, -mv)):
+                continue  # no such delimiter on this path
+            if not entails(st, end - mv):
+                ok, det = False, "the cut can lie behind the %r found (trail %s)" % (ch, st.trail[-4:])
+    R.check(ok and n >= 1 and len(holders) >= 2, "DELIM", "authority-ends-at-first-delimiter", "%s()" % f.name, "the authority is cut at or before every '/' / '?' found (%d states)" % n,
+            "the authority does not end at the first delimiter: %s - a URI with an empty path whose query contains '/' (\"http://host?a=/b\") is split inside the query" % det)
+
+
 def port_range(R, P):
     """PORT: the authority parser accepts exactly the port numbers that fit the 32-bit field: once the digits parsed, ERROR is
     set only if the value exceeds UINT32_MAX, and the narrowing store sees a value <= UINT32_MAX (NUM, all values)."""
@@ -789,6 +841,7 @@ def analyse(ctx, replace=None, only=None):
     own_copy(R, P)
     views(R, P)
     host_cursor(R, P)
+    authority_end(R, P)
     builder(R, P)
     alphabet(R, P)
     query(R, P)
